@@ -57,7 +57,8 @@ func SetFS(uid, gid int, groups []int) error { return setfs(uid, gid, groups) }
 // (a tmpfs directory such as /dev/shm).  It proves its own preconditions.
 func New(base string) (*Thread, error) {
 	_ = os.Unsetenv("PWD") // os.Getwd must ask the kernel, not trust the environment
-	root, err := os.MkdirTemp(base, "verif-k-")
+	// the process id is in the name so that the driver can remove what a killed shard leaves behind
+	root, err := os.MkdirTemp(base, fmt.Sprintf("verif-k-%d-", os.Getpid()))
 	if err != nil {
 		return nil, err
 	}
